@@ -146,11 +146,13 @@ def run_codec_check(ctx, pid, mode, judge, extra=None):
             with open(idx) as f:
                 fl = [l for l in f if l.strip()]
             res, nopen = judge_shard(sp, idx, "%s-%s" % (uniq, os.path.basename(sp)))
-            with open(sp) as f:
-                first = f.readline()
+            with open(sp) as f:      # a record from the middle of the shard as a sample of what was explored
+                f.seek(os.path.getsize(sp) // 2 + 7919 * len(samples))
+                f.readline()
+                mid = f.readline() or "{}"
             fam_lines.extend(fl)
-            if len(samples) < 12:
-                samples.append(json.loads(first))
+            if len(samples) < 12 and mid.strip().startswith("{\"t\""):
+                samples.append(json.loads(mid))
             for l in fl:
                 h = json.loads(l)
                 stats["records"] += h["n"]
